@@ -332,3 +332,194 @@ Proof.
   - rewrite forallb_app, H2', andb_true_r. now apply rws_ok.
   - now rewrite sep_run_app, sep_run_all_ws by apply rws_all_ws.
 Qed.
+
+(* ------------------------------------------------------------------ the content is what RelEdit.structure reads *)
+Definition rels (e : lentry) : list lrel := e_first e :: map snd (e_alts e).
+Definition rel_ops (r : lrel) : bool :=
+  match l_ver r with Some (_, v) => match parse_vc (av_op v) with Some _ => true | None => false end | None => true end.
+Definition lops (l : lroot) : bool := forallb (fun e => forallb rel_ops (rels e)) (lentries l).
+(* what the accessors need of a relation to read it as its content *)
+Definition rel_acc_ok (r : lrel) : bool :=
+  match l_qual r with Some (_, q) => wsk (aq_ws1 q) | None => true end &&
+  match l_ver r with
+  | Some (_, v) => wsk (av_ws1 v) && wsk (av_ws2 v) && wsk (av_ws3 v) && nonempty (rttext_of (map vpiece_tok (av_ver v)))
+  | None => true
+  end.
+Definition lacc_ok (l : lroot) : bool := forallb (fun e => forallb rel_acc_ok (rels e)) (lentries l).
+
+Lemma find_none {A} (p : A -> bool) l : Forall (fun x => p x = false) l -> find p l = None.
+Proof. induction 1 as [|x r Hx _ IH]; [reflexivity|]. cbn. now rewrite Hx. Qed.
+Lemma find_app_none {A} (p : A -> bool) a b : Forall (fun x => p x = false) a -> find p (a ++ b) = find p b.
+Proof. induction 1 as [|x r Hx _ IH]; [reflexivity|]. cbn [app find]. now rewrite Hx. Qed.
+Lemma find_part_some {A} (p : rtree -> bool) (f : A -> rtree) w a post :
+  (forall t, p (wtree t) = false) -> p (f a) = true -> find p (part f (Some (w, a)) ++ post) = Some (f a).
+Proof. intros Hw Hf. cbn [part]. rewrite <- app_assoc, find_app_none by now apply Forall_wtrees. cbn [app find]. now rewrite Hf. Qed.
+Lemma tok_is_elems_ws k w : wsk w = true -> is_ws_kind k = false -> Forall (fun x => tok_is k x = false) (elems w).
+Proof.
+  unfold wsk. intros H Hk. induction w as [|[k' s] r IH]; [constructor|]. cbn [forallb fst] in H. andb_hyps. constructor; [|now apply IH].
+  unfold tk, tok_is, kind_is. cbn [fst snd is_node negb ekind andb]. destruct k', k; try discriminate; reflexivity.
+Qed.
+Lemma vtext_ws w : wsk w = true -> version_text_of (elems w) = [].
+Proof.
+  intros H. unfold version_text_of. pose proof (tok_is_elems_ws IDENT w H eq_refl) as H1. pose proof (tok_is_elems_ws COLON w H eq_refl) as H2.
+  induction (elems w) as [|c r IH]; [reflexivity|]. inversion H1 as [|? ? Ha Hb]; subst. inversion H2 as [|? ? Hc Hd]; subst. cbn [flat_map]. rewrite Ha, Hc. cbn [orb app]. now apply IH.
+Qed.
+Lemma vtext_pieces l : version_text_of (elems (map vpiece_tok l)) = rttext_of (map vpiece_tok l).
+Proof. unfold version_text_of, rttext_of. induction l as [|p r IH]; [reflexivity|]. cbn [map elems flat_map concat]. rewrite <- IH. now destruct p. Qed.
+Lemma vtext_app a b : version_text_of (a ++ b) = version_text_of a ++ version_text_of b.
+Proof. unfold version_text_of. apply flat_map_app. Qed.
+Lemma vtext_cons c l : version_text_of (c :: l) = version_text_of [c] ++ version_text_of l.
+Proof. unfold version_text_of. cbn [flat_map]. now rewrite app_nil_r. Qed.
+Lemma text_constraint op : text (Node CONSTRAINT (elems (map op_tok op))) = op.
+Proof.
+  rewrite text_node, texts_elems. unfold rttext. induction op as [|c r IH]; [reflexivity|]. cbn [map concat]. rewrite IH.
+  unfold op_tok. destruct (c =? 60)%N; [reflexivity|]. destruct (c =? 62)%N; reflexivity.
+Qed.
+
+Lemma rel_name_lrel r : rel_name (lrel_tree r) = Ok (l_name r).
+Proof. reflexivity. Qed.
+Lemma rel_archqual_lrel r : rel_acc_ok r = true ->
+  rel_archqual (lrel_tree r) = option_map (fun wq => aq_name (snd wq)) (l_qual r).
+Proof.
+  unfold rel_acc_ok. intros H. andb_hyps. unfold rel_archqual, lrel_tree, lrel_children. cbn [children find].
+  change (node_is ARCHQUAL (Tok IDENT (l_name r))) with false. cbn iota.
+  destruct (l_qual r) as [[w q]|].
+  - rewrite find_part_some by (intros; try apply node_is_wtree; reflexivity). cbn [option_map snd].
+    unfold qual_node, aqual_node. cbn [children]. unfold first_tok_text. cbn [find]. change (tok_is IDENT (Tok COLON [58%N])) with false. cbn iota.
+    rewrite find_app_none by (now apply tok_is_elems_ws). reflexivity.
+  - cbn [part app option_map]. rewrite find_none; [reflexivity|]. not_kind.
+Qed.
+Lemma rel_version_lrel r : rel_acc_ok r = true ->
+  rel_version (lrel_tree r) = if rel_ops r then Ok (match l_ver r with Some (_, v) => ver_content v | None => None end) else Panic 51%N.
+Proof.
+  unfold rel_acc_ok, rel_ops. intros H. andb_hyps. unfold rel_version, lrel_tree, lrel_children. cbn [children find].
+  change (node_is VERSION (Tok IDENT (l_name r))) with false. cbn iota.
+  rewrite find_app_none by not_kind.
+  destruct (l_ver r) as [[w v]|].
+  - andb_hyps. rewrite find_part_some by (intros; try apply node_is_wtree; reflexivity).
+    unfold vnode, aver_node. cbn [children find]. change (node_is CONSTRAINT (Tok L_PARENS [40%N])) with false. cbn iota.
+    rewrite find_app_none by (clear; induction (av_ws1 v) as [|t r0 IH]; constructor; [reflexivity|exact IH]).
+    cbn [app find]. change (node_is CONSTRAINT (Node CONSTRAINT (elems (map op_tok (av_op v))))) with true. cbn iota.
+    match goal with |- context [version_text_of ?x] => assert (Ev : version_text_of x = rttext_of (map vpiece_tok (av_ver v))) end.
+    { rewrite vtext_cons, vtext_app, (vtext_cons (Node CONSTRAINT (elems (map op_tok (av_op v))))), !vtext_app.
+      rewrite (vtext_ws (av_ws1 v)), (vtext_ws (av_ws2 v)), (vtext_ws (av_ws3 v)), vtext_pieces by assumption.
+      cbn. now rewrite app_nil_r. }
+    rewrite Ev, text_constraint. unfold ver_content.
+    destruct (rttext_of (map vpiece_tok (av_ver v))) as [|c0 r0] eqn:Et; [discriminate|].
+    destruct (parse_vc (av_op v)); reflexivity.
+  - cbn [part app]. rewrite find_none; [reflexivity|]. not_kind.
+Qed.
+Lemma rel_architectures_lrel r :
+  rel_architectures (lrel_tree r) = option_map (fun wg => arch_names (children (arch_node (snd wg))) false) (l_archs r).
+Proof.
+  unfold rel_architectures, lrel_tree, lrel_children. cbn [children find].
+  change (node_is ARCHITECTURES (Tok IDENT (l_name r))) with false. cbn iota.
+  rewrite find_app_none by not_kind. rewrite find_app_none by not_kind.
+  destruct (l_archs r) as [[w g]|].
+  - rewrite find_part_some by (intros; try apply node_is_wtree; reflexivity). reflexivity.
+  - cbn [part app option_map]. rewrite find_none; [reflexivity|]. not_kind.
+Qed.
+Lemma filter_none {A} (p : A -> bool) l : Forall (fun x => p x = false) l -> filter p l = [].
+Proof. induction 1 as [|x r Hx _ IH]; [reflexivity|]. cbn. now rewrite Hx. Qed.
+Lemma rel_profiles_lrel r :
+  rel_profiles (lrel_tree r) = map (fun wg => profile_group (children (prof_node (snd wg))) [] false) (l_profs r).
+Proof.
+  unfold rel_profiles, lrel_tree, lrel_children. cbn [children filter].
+  change (node_is PROFILES (Tok IDENT (l_name r))) with false. cbn iota.
+  rewrite !filter_app. rewrite (filter_none _ (part qual_node (l_qual r))), (filter_none _ (part vnode (l_ver r))),
+    (filter_none _ (part arch_node (l_archs r))), (filter_none _ (wtrees (l_trail r))) by not_kind.
+  cbn [app]. rewrite app_nil_r. induction (l_profs r) as [|[w g] rest IH]; [reflexivity|].
+  cbn [flat_map map]. unfold prof_part at 1. cbn [fst snd]. rewrite !filter_app, (filter_none _ (wtrees w)) by not_kind. cbn [app filter].
+  change (node_is PROFILES (prof_node g)) with true. cbn iota. cbn [app map]. now rewrite IH.
+Qed.
+Lemma relrec_of_lrel r : rel_acc_ok r = true ->
+  relrec_of (lrel_tree r) = if rel_ops r then Ok (lrel_content r) else Panic 51%N.
+Proof.
+  intros H. unfold relrec_of. rewrite rel_name_lrel, (rel_version_lrel r H), (rel_archqual_lrel r H), rel_architectures_lrel, rel_profiles_lrel.
+  destruct (rel_ops r); reflexivity.
+Qed.
+
+Lemma entries_ltree l : entries (ltree l) = map lentry_tree (lentries l).
+Proof.
+  unfold entries, ltree. cbn [children]. induction l as [|x r IH]; [reflexivity|]. cbn [map filter]. rewrite is_entry_rt.
+  destruct x; cbn [is_re]; try exact IH. change (lentries (RE e :: r)) with (e :: lentries r). cbn [map]. now rewrite IH.
+Qed.
+Lemma relations_lentry e : relations (lentry_tree e) = map lrel_tree (rels e).
+Proof.
+  unfold relations, lentry_tree, lentry_children, rels. cbn [children filter]. rewrite is_relation_lrel. cbn [map]. f_equal.
+  rewrite filter_app, filter_relations_alts, filter_relation_wtrees, app_nil_r. now rewrite map_map.
+Qed.
+Lemma mapM_if {A B} (f : A -> res B) (p : A -> bool) (g : A -> B) l :
+  (forall x, In x l -> f x = if p x then Ok (g x) else Panic 51%N) ->
+  mapM f l = if forallb p l then Ok (map g l) else Panic 51%N.
+Proof.
+  induction l as [|x r IH]; intros H; [reflexivity|]. cbn [mapM forallb map]. rewrite (H x (or_introl eq_refl)).
+  destruct (p x); [|reflexivity]. rewrite IH by (intros y Hy; apply H; now right). cbn [andb]. destruct (forallb p r); reflexivity.
+Qed.
+Lemma lentry_content_rels e : lentry_content e = map lrel_content (rels e).
+Proof. unfold lentry_content, rels. cbn [map]. now rewrite map_map. Qed.
+Theorem structure_ltree_gen l : lacc_ok l = true ->
+  structure (ltree l) = if lops l then Ok (fst (lcontent l)) else Panic 51%N.
+Proof.
+  unfold lacc_ok, lops. intros H. unfold structure. rewrite entries_ltree, lcontent_entries. cbn [fst].
+  rewrite forallb_forall in H.
+  assert (E : forall e, In e (lentries l) ->
+            mapM relrec_of (relations (lentry_tree e)) = if forallb rel_ops (rels e) then Ok (lentry_content e) else Panic 51%N).
+  { intros e He. rewrite relations_lentry, lentry_content_rels. specialize (H e He). rewrite forallb_forall in H.
+    clear He. revert H. induction (rels e) as [|r rs IH]; intros H; [reflexivity|]. cbn [map mapM forallb].
+    rewrite (relrec_of_lrel r (H r (or_introl eq_refl))). destruct (rel_ops r); [|reflexivity].
+    rewrite IH by (intros y Hy; apply H; now right). cbn [andb]. destruct (forallb rel_ops rs); reflexivity. }
+  clear H. induction (lentries l) as [|e es IH]; [reflexivity|]. cbn [map mapM forallb].
+  rewrite (E e (or_introl eq_refl)). destruct (forallb rel_ops (rels e)); [|reflexivity].
+  rewrite IH by (intros y Hy; apply E; now right). cbn [andb]. destruct (forallb (fun e0 => forallb rel_ops (rels e0)) es); reflexivity.
+Qed.
+
+(* well-formed layouts are readable *)
+Lemma lexable_nonempty_text ts : lexable ts = true -> ts <> [] -> rttext_of ts <> [].
+Proof.
+  destruct ts as [|[k s] r]; [congruence|]. rewrite lexable_cons. intros H _. andb_hyps. unfold tok_valid in H. cbn [snd] in H.
+  destruct s; [discriminate|]. unfold rttext_of. cbn. discriminate.
+Qed.
+Lemma ver_text_nonempty v : lexable (aver_body_toks v) = true -> nonempty (av_ver v) = true ->
+  nonempty (rttext_of (map vpiece_tok (av_ver v))) = true.
+Proof.
+  intros HL Hn. unfold aver_body_toks in HL.
+  assert (Hp : lexable (map vpiece_tok (av_ver v)) = true) by (eapply lexable_seg; [|exact HL]; auto 10 with seg).
+  destruct (rttext_of (map vpiece_tok (av_ver v))) eqn:Et; [|reflexivity].
+  exfalso. apply (lexable_nonempty_text _ Hp); [destruct (av_ver v); discriminate|exact Et].
+Qed.
+Lemma lrel_ok_acc r : lrel_ok r = true -> rel_acc_ok r = true /\ rel_ops r = true.
+Proof.
+  unfold lrel_ok, rel_acc_ok, rel_ops. intros H. andb_hyps.
+  assert (Hq : match l_qual r with Some (_, q) => wsk (aq_ws1 q) | None => true end = true).
+  { destruct (l_qual r) as [[w q]|]; [|reflexivity]. cbn [inner_ok] in *. andb_hyps.
+    match goal with X : qual_in_ok q = true |- _ => unfold qual_in_ok in X end. now andb_hyps. }
+  rewrite Hq. cbn [andb].
+  destruct (l_ver r) as [[w' v]|]; [|auto]. cbn [inner_ok] in *. andb_hyps.
+  match goal with X : vclause_in_ok v = true |- _ => unfold vclause_in_ok in X end. andb_hyps.
+  split; [|assumption]. andb_goal; auto. now apply ver_text_nonempty.
+Qed.
+Lemma lentry_ok_rels e r : lentry_ok e = true -> In r (rels e) -> lrel_ok r = true.
+Proof.
+  rewrite lentry_ok_eq. intros H Hin. andb_hyps. unfold rels in Hin. destruct Hin as [<-|Hin]; [assumption|].
+  apply in_map_iff in Hin as (a & <- & Ha). rewrite forallb_forall in H1. specialize (H1 a Ha). unfold alt_ok in H1. now andb_hyps.
+Qed.
+Lemma lwf_entries b l e : lwf b l = true -> In e (lentries l) -> lentry_ok e = true.
+Proof.
+  intros H Hin. destruct (lwf_split _ _ H) as (Hok & _). clear H. induction l as [|x r IH]; [contradiction|]. cbn [forallb] in Hok. andb_hyps.
+  destruct x; try (apply IH; assumption). change (lentries (RE e0 :: r)) with (e0 :: lentries r) in Hin.
+  destruct Hin as [<-|Hin]; [assumption|now apply IH].
+Qed.
+Lemma lwf_acc b l : lwf b l = true -> lacc_ok l = true /\ lops l = true.
+Proof.
+  intros H. unfold lacc_ok, lops. split; rewrite forallb_forall; intros e Hin; rewrite forallb_forall; intros r Hr;
+    apply (lrel_ok_acc r (lentry_ok_rels e r (lwf_entries b l e H Hin) Hr)).
+Qed.
+Theorem structure_ltree b l : lwf b l = true -> structure (ltree l) = Ok (fst (lcontent l)).
+Proof. intros H. destruct (lwf_acc b l H) as [Ha Ho]. now rewrite (structure_ltree_gen l Ha), Ho. Qed.
+Theorem substvars_ltree l : substvar_texts (ltree l) = snd (lcontent l).
+Proof.
+  unfold substvar_texts, ltree, lcontent. cbn [children snd]. induction l as [|x r IH]; [reflexivity|]. cbn [map filter flat_map].
+  destruct x; cbn [relem_tree relem_substvars app]; rewrite ?node_is_wtree; try exact IH.
+  change (node_is SUBSTVAR (subst_node body)) with true. cbn [map]. now rewrite IH.
+Qed.
